@@ -75,7 +75,7 @@ Below(r, d) == IF d = 0 THEN 1 ELSE r[d] * Below(r, d - 1)
 Digit(k, r, d) == ((k \div Below(r, d - 1)) % r[d]) + 1
 
 RA == <<Len(BasicSeq), Len(HdrSeq), 2>>
-RB == <<Len(ChunkSeq), Len(TEHdrSeq), 2>>
+RB == <<Len(ChunkSeq), Len(TEHdrSeq), 1>>       \* chunk-detail bodies: POST only
 RC == <<Len(CoreBodySeq), Len(CoreHdrSeq), 3, 3, 3, 2>>
 NA == Below(RA, 3)  NB == Below(RB, 3)  NC == Below(RC, 6)
 NF == NA + NB + NC
@@ -84,7 +84,7 @@ First(k1) ==
   IF k1 <= NA THEN LET k == k1 - 1 IN
     Msg("1.1", MethAB[Digit(k, RA, 3)], "ok", "crlf", HdrSeq[Digit(k, RA, 2)], BasicSeq[Digit(k, RA, 1)])
   ELSE IF k1 <= NA + NB THEN LET k == k1 - NA - 1 IN
-    Msg("1.1", MethAB[Digit(k, RB, 3)], "ok", "crlf", TEHdrSeq[Digit(k, RB, 2)], ChunkSeq[Digit(k, RB, 1)])
+    Msg("1.1", "POST", "ok", "crlf", TEHdrSeq[Digit(k, RB, 2)], ChunkSeq[Digit(k, RB, 1)])
   ELSE LET k == k1 - NA - NB - 1 IN
     Msg(VerC[Digit(k, RC, 6)], MethC[Digit(k, RC, 5)], HostC[Digit(k, RC, 4)], LeC[Digit(k, RC, 3)],
         CoreHdrSeq[Digit(k, RC, 2)], CoreBodySeq[Digit(k, RC, 1)])
@@ -105,12 +105,18 @@ PLOf(id) ==
   IF id <= NF * NS
   THEN <<First(((id - 1) \div NS) + 1), Seconds[((id - 1) % NS) + 1], CanaryGet>>
   ELSE LET t == ExtraSeq[id - NF * NS] IN [i \in 1..Len(t) |-> First((t[i] % NF) + 1)] \o <<CanaryGet>>
-AllIds == 1..NP
+\* every STRIDE-th pipeline (1 = all): lets other checks (C08) reuse a thinner vector set
+STRIDE == @@STRIDE@@
+NK == NP \div STRIDE
+AllIds == { k * STRIDE : k \in 1..NK }
 
-Vec(id) == LET p == PLOf(id)  s == RFCSeq(p) IN [id |-> id, p |-> p, allowed |-> CutAmb(s), full |-> Len(s)]
+\* b1: wire position right after the first RFC message (<<0,0>> if the first unit is not a message)
+Vec(id) == LET p == PLOf(id)  s == RFCSeq(p)  u == NextUnit(p, 1, 0) IN
+  [id |-> id, p |-> p, allowed |-> CutAmb(s), full |-> Len(s),
+   b1 |-> IF u.st = "msg" THEN u.nxt ELSE <<0, 0>>]
 
-ASSUME PrintT(<<"FIRSTS", NF, "PIPELINES", NP>>)
-ASSUME ndJsonSerialize("vectors.ndjson", [id \in 1..NP |-> Vec(id)])
+ASSUME PrintT(<<"FIRSTS", NF, "PIPELINES", NK>>)
+ASSUME ndJsonSerialize("vectors.ndjson", [k \in 1..NK |-> Vec(k * STRIDE)])
 
 Inv == AllInv
 =============================================================================
